@@ -57,7 +57,7 @@ def octet_helpers(modname):
     return ok
 
 
-LEAN_TY = {'int': 'Int', 'bool': 'Bool', 'tup': 'Py.Tup', 'tups': 'List Py.Tup', 'fun:tup->tup': '(Py.Tup → Py.M Py.Tup)'}
+LEAN_TY = {'int': 'Int', 'bool': 'Bool', 'tup': 'Py.Tup', 'tups': 'List Py.Tup', 'fun:tup->tup': '(Py.Tup → Py.M Py.Tup)', 'unit': 'Unit', 'fun:int->unit': '(Int → Py.M Unit)'}
 
 
 def find_function(tree, path):
@@ -100,6 +100,7 @@ class Ctx(object):
         self.self_params = {}         # attr -> type
         self.expr_params = {}         # name -> type (verbatim source expressions turned into parameters)
         self.ret_in_loop = False
+        self.loop_rec = []
         self.octets = octet_helpers(spec['octets']) if spec.get('octets') else set()
 
     def tmp(self):
@@ -526,6 +527,13 @@ def tr_block(cx, env, stmts, ret_ty, tail):
         return cont(env)        # docstring
     if isinstance(s, ast.Pass):
         return cont(env)
+    if isinstance(s, ast.Continue):
+        if not cx.loop_rec:
+            raise Unsupported('continue outside a translated for loop')
+        return cx.loop_rec[-1](env)
+    if isinstance(s, ast.Expr) and isinstance(s.value, ast.Call) and unparse(s.value).strip() in cx.spec.get('funs', {}):
+        v, tv, pre = tr_expr(cx, env, s.value)      # a call of a callback for its effect (it may raise)
+        return pre + cont(env)
     if (isinstance(s, ast.If) and isinstance(s.test, ast.Name) and s.test.id == 'LOG' and not s.orelse
             and all(isinstance(b, ast.Expr) and isinstance(b.value, ast.Call) and isinstance(b.value.func, ast.Name)
                     and b.value.func.id == 'LOG' for b in s.body)):
@@ -542,6 +550,8 @@ def tr_block(cx, env, stmts, ret_ty, tail):
         if ti != 'int':
             raise Unsupported('del index')
         return pi + ['let %s ← Py.delAt %s %s' % (nm, nm, i)] + cont(env)
+    if isinstance(s, ast.Return) and s.value is None:
+        return ['pure (Sum.inl ())'] if cx.ret_in_loop else ['pure ()']
     if isinstance(s, ast.Return):
         v, tv, pre = tr_expr(cx, env, s.value)
         if cx.ret_in_loop:
@@ -631,6 +641,18 @@ def tr_block(cx, env, stmts, ret_ty, tail):
         b = tr_block(cx, env, s.orelse, ret_ty, fin)
         return (pre + ['let %s ← (if %s then do' % (tup_of(vs), c)] + ind(a, 4) + ['  else do'] + ind(b, 4)
                 + ['  : Py.M (%s))' % ty_of(env, vs)] + cont(env))
+    if (isinstance(s, ast.Try) and len(s.handlers) == 1 and not s.finalbody and s.handlers[0].name is None
+            and (dotted(s.handlers[0].type) or '').split('.')[-1] in cx.spec.get('catch', []) and not assigned(s.body)):
+        # try: <calls, no assignment> / except <library error class>: H / else: E  -  the body runs under tryCatch and
+        # answers whether it got through; H or E then run as ordinary code (they may `continue`, `return`, `raise`)
+        cls = dotted(s.handlers[0].type).split('.')[-1]
+        a = tr_block(cx, env, s.body, ret_ty, lambda e2: ['pure true'])
+        r_ = cx.tmp()
+        h = tr_block(cx, env, s.handlers[0].body, ret_ty, lambda e2: tr_block(cx, e2, rest, ret_ty, tail))
+        e_ = tr_block(cx, env, s.orelse, ret_ty, lambda e2: tr_block(cx, e2, rest, ret_ty, tail))
+        return (['let %s ← tryCatch (do' % r_] + ind(a, 4) + ['  : Py.M Bool)',
+                '  (fun e_ => if e_ = Py.PyErr.lib "%s" then pure false else throw e_)' % cls,
+                'if %s then do' % r_] + ind(e_) + ['else do'] + ind(h))
     if isinstance(s, ast.Try):
         if (len(s.handlers) != 1 or s.orelse or s.finalbody or dotted(s.handlers[0].type) != 'IndexError'
                 or s.handlers[0].name is not None):
@@ -664,7 +686,7 @@ def tr_block(cx, env, stmts, ret_ty, tail):
                     n_before = bi
                     break
         for n in ast.walk(s):
-            if isinstance(n, (ast.Break, ast.Continue)):
+            if isinstance(n, ast.Break) or (isinstance(n, ast.Continue) and not isinstance(s, ast.For)):
                 raise Unsupported('break/continue inside a loop')
             if isinstance(n, ast.Return):
                 if not isinstance(s, ast.For) or cx.ret_in_loop:
@@ -715,10 +737,12 @@ def tr_block(cx, env, stmts, ret_ty, tail):
             rec = lambda e2: ['%s %s rest_%s %s' % (fname, rec_args, idx_arg, ' '.join(threaded))]
             if early:
                 cx.ret_in_loop = True
+            cx.loop_rec.append(rec)
             try:
                 body = tr_block(cx, env_in, s.body, ret_ty, rec)
             finally:
                 cx.ret_in_loop = False
+                cx.loop_rec.pop()
             exit_v = tup_of(threaded) if threaded else '()'
             if early:
                 ret = 'Sum (%s) (%s)' % (ret_ty, ret)
